@@ -126,6 +126,17 @@ func Address(k int) *simwallet.Address {
 	return &simwallet.Address{X: rt.NondetBig(k), Y: rt.NondetBig(k)}
 }
 
+// BigK returns an arbitrary integer below 256^k (exactly k bytes in exact mode).
+func BigK(k int) *big.Int {
+	if Exact {
+		return rt.NondetBigExact(k)
+	}
+	return rt.NondetBig(k)
+}
+
+// AppIDOf wraps an address as a sim app identifier.
+func AppIDOf(a *simwallet.Address) channel.AppID { return simchannel.AppID{Address: a} }
+
 // AppID returns a sim app identifier with arbitrary coordinates.
 func AppID(k int) channel.AppID { return simchannel.AppID{Address: Address(k)} }
 
